@@ -5,6 +5,7 @@ package exec
 import (
 	"encoding/json"
 	"fmt"
+	"go.uber.org/dig"
 )
 
 // Request is one input line.
@@ -171,3 +172,52 @@ func (e *UserErr) Error() string { return fmt.Sprintf("user error %d:%d", e.Fn, 
 type UserPanic struct{ Fn, X int }
 
 func (p UserPanic) String() string { return fmt.Sprintf("user panic %d:%d", p.Fn, p.X) }
+
+// UserPanicErr is a panic value that is itself an error and wraps another error (a genuine dig error:
+// a constructor that panics with the failure of a private sub-container).  dig must treat it as an
+// opaque panic value: the PanicError it reports is the root cause, whatever the value wraps.
+type UserPanicErr struct {
+	UserPanic
+	Inner error
+}
+
+func (p UserPanicErr) Error() string { return fmt.Sprintf("user panic %d:%d: %v", p.Fn, p.X, p.Inner) }
+func (p UserPanicErr) Unwrap() error { return p.Inner }
+
+// asUserPanic recognises both forms of scripted panic values.
+func asUserPanic(v interface{}) (UserPanic, bool) {
+	switch p := v.(type) {
+	case UserPanic:
+		return p, true
+	case UserPanicErr:
+		return p.UserPanic, true
+	}
+	return UserPanic{}, false
+}
+
+type subA struct{}
+type subB struct{}
+
+// genuine dig errors for UserPanicErr to wrap: a missing-type failure and a cycle rejection
+var subMissingErr = func() error {
+	return dig.New().Invoke(func(*subA) {})
+}()
+var subCycleErr = func() error {
+	c := dig.New()
+	if err := c.Provide(func(*subB) *subA { return nil }); err != nil {
+		return err
+	}
+	return c.Provide(func(*subA) *subB { return nil })
+}()
+
+// panicValue picks the form of the panic value of execution x of function f.
+func panicValue(f, x int) interface{} {
+	up := UserPanic{Fn: f, X: x}
+	switch (f + x) % 3 {
+	case 1:
+		return UserPanicErr{up, subMissingErr}
+	case 2:
+		return UserPanicErr{up, subCycleErr}
+	}
+	return up
+}
